@@ -142,8 +142,10 @@ class EffectivePotential(ABC):
         guesses = initialGuess.resizeFields(numPoints, initialGuess.numFields())
         T = np.resize(T, (numPoints))
 
-        resValue = np.empty_like(T)
-        resLocation = np.empty_like(guesses)
+        # The results are real numbers also when the guess or the temperature were
+        # given as integers (empty_like would truncate them to the input's dtype)
+        resValue = np.empty_like(T, dtype=float)
+        resLocation = np.empty_like(guesses, dtype=float)
 
         for i in range(0, numPoints):
 
